@@ -119,6 +119,30 @@ def touches (cells : List (List Nat)) (rim : List Nat) (k : Nat) : Bool :=
 def isPerm (xs : List Nat) (n : Nat) : Bool :=
   xs.length == n && (List.range n).all (xs.contains ·)
 
+/-! ### the annulus for every number of segments -/
+
+/-- `Annulus(…, n_segments = n)`: one face, rotated n times; with inner point i named 2i and outer point i named 2i+1
+    face i is (inner i, outer i, outer i+1, inner i+1), indices mod n -/
+def annulusCells (n : Nat) : List (List Nat) :=
+  (List.range n).map (fun i => [2 * i, 2 * i + 1, 2 * ((i + 1) % n) + 1, 2 * ((i + 1) % n)])
+
+/-- the points on the outer circle -/
+def annulusRim (n : Nat) : List Nat := (List.range n).map (fun i => 2 * i + 1)
+
+/-- numbers points by first appearance while walking the cells (what `cbv/tables/c19.py` does with the real points) -/
+def canonStep (acc : List Nat × List (List Nat)) (cell : List Nat) : List Nat × List (List Nat) :=
+  let r := cell.foldl (fun (a : List Nat × List Nat) p =>
+    if a.1.contains p then (a.1, a.2 ++ [a.1.idxOf p]) else (a.1 ++ [p], a.2 ++ [a.1.length])) (acc.1, [])
+  (r.1, acc.2 ++ [r.2])
+
+def canon (cells : List (List Nat)) : List Nat × List (List Nat) := cells.foldl canonStep ([], [])
+
+def canonCells (cells : List (List Nat)) : List (List Nat) := (canon cells).2
+
+/-- the ids of given points under that numbering, ascending -/
+def canonPoints (cells : List (List Nat)) (pts : List Nat) : List Nat :=
+  (List.range (canon cells).1.length).filter (fun i => pts.contains ((canon cells).1.getD i 0))
+
 /-! ### line protocol -/
 
 def showFace (f : Face3) : String := s!"{f.ix}.{f.iy}.{f.level}"
@@ -158,6 +182,11 @@ def handle (op : String) (args : List String) : Option String :=
       let r ← sketchRow? name
       let cs := coreShell r
       some s!"cells={showNatss r.2.1} grid={showNatss r.2.2.1} core={showNats r.2.2.2.1} shell={showNats r.2.2.2.2.1} shapecore={showNats cs.1} shapeshell={showNats cs.2}"
+  | "c19.annulus", [n] => do
+      let n ← n.toNat?
+      if n = 0 then none
+      let all := List.range n
+      some s!"cells={showNatss (canonCells (annulusCells n))} grid={showNatss [all]} core=[] shell={showNats all} rim={showNats (canonPoints (annulusCells n) (annulusRim n))}"
   | "c19.shape", [name] => do
       let r ← shapeRow? name
       some s!"cells={showNatss r.2.2.1} opface={showNats r.2.2.2.1} core={showNats r.2.2.2.2.1} shell={showNats r.2.2.2.2.2.1}"
